@@ -174,6 +174,15 @@ impl<'a> DataValue {
             (Self::Int(n), DataOperator::GreaterThanOrEqual(n2)) => *n >= *n2,
             (Self::Int(n), DataOperator::LessThan(n2)) => *n < *n2,
             (Self::Int(n), DataOperator::LessThanOrEqual(n2)) => *n <= *n2,
+            // the ordering operators apply to any numeric value, also when value and operator are not of the same numeric type
+            (Self::Int(n), DataOperator::GreaterThanFloat(n2)) => (*n as f64) > *n2,
+            (Self::Int(n), DataOperator::GreaterThanOrEqualFloat(n2)) => (*n as f64) >= *n2,
+            (Self::Int(n), DataOperator::LessThanFloat(n2)) => (*n as f64) < *n2,
+            (Self::Int(n), DataOperator::LessThanOrEqualFloat(n2)) => (*n as f64) <= *n2,
+            (Self::Float(n), DataOperator::GreaterThan(n2)) => *n > (*n2 as f64),
+            (Self::Float(n), DataOperator::GreaterThanOrEqual(n2)) => *n >= (*n2 as f64),
+            (Self::Float(n), DataOperator::LessThan(n2)) => *n < (*n2 as f64),
+            (Self::Float(n), DataOperator::LessThanOrEqual(n2)) => *n <= (*n2 as f64),
             (Self::Int(n), DataOperator::Equals(s2)) => {
                 if let Ok(n2) = s2.parse::<isize>() {
                     *n == n2
